@@ -41,21 +41,21 @@ META = {
         "technique": "Coq proof (arithmetic over Z + specification machine) on generated constants + per-step simulation",
     },
     "C17": {
-        "text": "Coq theorems C17_failed_password, C17_max_attempts, C17_invalid_user: for every user name without newline (spaces, ' from ', ' port ', forged fragments included), every space-free peer address and decimal port, processing the message yields exactly one failed event whose source/port are the appended ones. The regexes and dispatch table in the statements are regenerated from the source by go2v on every run (Go's own regexp/syntax parses them), so a regex edit re-opens the proof obligation. Handlers are tied by differential execution on hostile names. Handlers: for 18 of the 20 handlers the hand-written model IS the interpretation of a field-source sketch that go2v regenerates from the handler's Go body on every run (C17_handlers_from_source); the public-key and invalid-certificate handlers are tied by correspondence only (C17_handlers_without_sketch).",
+        "text": "Coq theorems C17_failed_password, C17_max_attempts, C17_invalid_user: for every user name without newline (spaces, ' from ', ' port ', forged fragments included), every space-free peer address and decimal port, processing the message yields exactly one failed event whose source/port are the appended ones. The regexes and dispatch table in the statements are regenerated from the source by go2v on every run (Go's own regexp/syntax parses them), so a regex edit re-opens the proof obligation. Handlers are tied by differential execution on hostile names. Handlers: for ALL 20 handlers the hand-written model IS the interpretation of a decision tree (regex, guards, per-branch field sources, metric calls, hand-off credential) that go2v regenerates from the handler's Go body by symbolic evaluation on every run (C17_all_handlers_from_source; flat-sketch form C17_handlers_from_source for 18 of them).",
         "design_ref": "DESIGN.md 6/C17",
         "note": "Trusted: Coq kernel; go2v; byte-level = rune-level matching for these classes; backtracking matcher = RE2 leftmost-first for flat patterns (exercised by correspondence).",
         "technique": "Coq proof over generated regex ASTs (greedy-field lemma + marker counting) + model/implementation correspondence",
     },
     "C11": {
-        "text": "Coq theorems C11_total (every line, token, writer and hand-off outcome: no panic, no error with a working writer, at most one event, forward only with the one succeeded event written) and C11_keyword (no keyword prefix => nothing at all happens), proved over the generated dispatch table and regexes by a bound lemma on matches and case analysis over all handlers. Differential execution on arbitrary bytes, mutations of valid messages and hostile pid tokens, with recovered panics. Handlers: for 18 of the 20 handlers the hand-written model IS the interpretation of a field-source sketch that go2v regenerates from the handler's Go body on every run (C11_handlers_from_source); the public-key and invalid-certificate handlers are tied by correspondence only (C11_handlers_without_sketch).",
+        "text": "Coq theorems C11_total (every line, token, writer and hand-off outcome: no panic, no error with a working writer, at most one event, forward only with the one succeeded event written) and C11_keyword (no keyword prefix => nothing at all happens), proved over the generated dispatch table and regexes by a bound lemma on matches and case analysis over all handlers. Differential execution on arbitrary bytes, mutations of valid messages and hostile pid tokens, with recovered panics. Handlers: for ALL 20 handlers the hand-written model IS the interpretation of a decision tree (regex, guards, per-branch field sources, metric calls, hand-off credential) that go2v regenerates from the handler's Go body by symbolic evaluation on every run (C11_all_handlers_from_source; flat-sketch form C11_handlers_from_source for 18 of them).",
         "design_ref": "DESIGN.md 6/C11",
         "note": "Trusted: as C17. Termination of Go's regexp is library behaviour. The 'verbatim substring' clause is checked by the oracle on the implementation and holds by construction in the model (captures are prefixes of suffixes of the line).",
         "technique": "Coq proof (all inputs; case analysis over generated dispatch/handlers) + correspondence on hostile inputs",
     },
     "C19": {
-        "text": "Coq theorems C19_counted (an emitted event implies exactly one counter increment with matching outcome and the right method family) and C19_no_keyword, over the generated dispatch table (which carries the switch's metric calls). Counters are read from a private Prometheus registry before/after each line in the correspondence. Handlers: for 18 of the 20 handlers the hand-written model IS the interpretation of a field-source sketch that go2v regenerates from the handler's Go body on every run (C19_handlers_from_source); the public-key and invalid-certificate handlers are tied by correspondence only (C19_handlers_without_sketch).",
+        "text": "Coq theorems C19_counted (an emitted event implies exactly one counter increment with matching outcome and the right method family) and C19_no_keyword, over the generated dispatch table (which carries the switch's metric calls). Counters are read from a private Prometheus registry before/after each line in the correspondence. Handlers: for ALL 20 handlers the hand-written model IS the interpretation of a decision tree (regex, guards, per-branch field sources, metric calls, hand-off credential) that go2v regenerates from the handler's Go body by symbolic evaluation on every run (C19_all_handlers_from_source; flat-sketch form C19_handlers_from_source for 18 of them).",
         "design_ref": "DESIGN.md 6/C19",
-        "note": "Trusted: as C17; metric calls inside three handlers are hand-modelled and tied by correspondence.",
+        "note": "Trusted: as C17; metric calls inside handlers are part of the generated decision trees (C19_all_handlers_from_source).",
         "technique": "Coq proof (walk of the generated dispatch table) + correspondence with counter deltas",
     },
     "C20": {
@@ -71,7 +71,7 @@ META = {
         "technique": "Coq proof (induction over the chunk list with the buffer invariant) + correspondence through a real FIFO",
     },
     "C05": {
-        "text": "Coq theorems over every line, token, writer behaviour and hand-off outcome: C05_forward_after_write (at most one login forwarded, only after exactly one succeeded event was written, the forwarded identity being that very event; write failure returns the error and forwards nothing; cancelled hand-off forwards nothing), C05_only_accepted_forward (only 'Accepted publickey'/'Accepted password' lines forward), C05_forward_content (pid = Atoi of the token, credential = 'unknown' or the certificate key id of the written event). Differential execution with an unbuffered logins channel records the order Encode-then-receive, pointer identity of the forwarded Source, write failure and cancellation modes. Handlers: for 18 of the 20 handlers the hand-written model IS the interpretation of a field-source sketch that go2v regenerates from the handler's Go body on every run (C05_handlers_from_source); the public-key and invalid-certificate handlers are tied by correspondence only (C05_handlers_without_sketch).",
+        "text": "Coq theorems over every line, token, writer behaviour and hand-off outcome: C05_forward_after_write (at most one login forwarded, only after exactly one succeeded event was written, the forwarded identity being that very event; write failure returns the error and forwards nothing; cancelled hand-off forwards nothing), C05_only_accepted_forward (only 'Accepted publickey'/'Accepted password' lines forward), C05_forward_content (pid = Atoi of the token, credential = 'unknown' or the certificate key id of the written event). Differential execution with an unbuffered logins channel records the order Encode-then-receive, pointer identity of the forwarded Source, write failure and cancellation modes. Handlers: for ALL 20 handlers the hand-written model IS the interpretation of a decision tree (regex, guards, per-branch field sources, metric calls, hand-off credential) that go2v regenerates from the handler's Go body by symbolic evaluation on every run (C05_all_handlers_from_source; flat-sketch form C05_handlers_from_source for 18 of them).",
         "design_ref": "DESIGN.md 6/C05",
         "note": "Trusted: as C17. The positive direction for public-key/certificate lines rests on the correspondence + oracle (loginRE field theorem is partial, see C06). select with both arms ready is not generated.",
         "technique": "Coq proof (all inputs; generated dispatch) + correspondence with fault modes",
@@ -89,7 +89,7 @@ META = {
         "technique": "Coq proof (invariant over schedules; refinement blocks->step) on a generated lock table + forced-schedule exploration of the real code under -race",
     },
     "C06": {
-        "text": "One Coq theorem per supported message form (22 in Props/C06.v): for all field values in the stated domain, processing the message rendered from sshd's format string yields exactly the expected result record (one event with exactly those fields, outcome, counter label, forwarded login for accepted authentications). Proved over the GENERATED regexes and dispatch table (greedy-field lemma with three ways to exclude later split points, tail-clash argument for the seven 'User ...' forms). The accepted public-key and certificate forms are proved over a restricted domain and named _partial. Differential execution over the full generated domain (unicode names, IPv6 with zone ids, key ids with spaces/parentheses/'serial', serials to 2^64-1, paths with spaces) compares model and implementation, and the oracle compares the implementation with the event expected by construction. Handlers: for 18 of the 20 handlers the hand-written model IS the interpretation of a field-source sketch that go2v regenerates from the handler's Go body on every run (C06_handlers_from_source); the public-key and invalid-certificate handlers are tied by correspondence only (C06_handlers_without_sketch).",
+        "text": "One Coq theorem per supported message form (22 in Props/C06.v): for all field values in the stated domain, processing the message rendered from sshd's format string yields exactly the expected result record (one event with exactly those fields, outcome, counter label, forwarded login for accepted authentications). Proved over the GENERATED regexes and dispatch table (greedy-field lemma with three ways to exclude later split points, tail-clash argument for the seven 'User ...' forms). The accepted public-key and certificate forms are proved over a restricted domain and named _partial. Differential execution over the full generated domain (unicode names, IPv6 with zone ids, key ids with spaces/parentheses/'serial', serials to 2^64-1, paths with spaces) compares model and implementation, and the oracle compares the implementation with the event expected by construction. Handlers: for ALL 20 handlers the hand-written model IS the interpretation of a decision tree (regex, guards, per-branch field sources, metric calls, hand-off credential) that go2v regenerates from the handler's Go body by symbolic evaluation on every run (C06_all_handlers_from_source; flat-sketch form C06_handlers_from_source for 18 of them).",
         "design_ref": "DESIGN.md 6/C06",
         "note": "Domains are explicit hypotheses (see the table at the top of Props/C06.v); where an earlier greedy field needs a later field to be space-free (shell; path in revoked-key forms) the wider domain is covered by correspondence + oracle only. A certificate key id that itself contains a complete ' from A port N sshX: ALG:SUM' fragment hijacks the greedy fields (Example C06_example_keyid_hijack): outside the property's stated key-id domain, recorded as an observation.",
         "technique": "Coq proof per message form over generated regex ASTs + model/implementation correspondence + by-construction oracle",
